@@ -170,7 +170,7 @@ def facts(repo):
     return {'Generated.v': '\n'.join(out) + '\n', 'Generated_C06Model.v': c06m}
 
 
-RULE = ('integer-valued rasters up to 10x10 with uniform integer coordinates (unit, non-square cx != cy, descending, offset; '
+RULE = ('integer-valued rasters up to 10x10 (every dtype Numba takes: float64/32, int8..64, uint8..64, bool; NaN/inf cells; target_values list / ints / tuple / ndarray with duplicated, absent, 0, NaN, inf entries; dimension names passed through x= / y=; float64 and int64 coordinate arrays; max_distance None) with uniform integer coordinates (unit, non-square cx != cy, descending, offset; '
         'optionally a consistent `res` attribute), random chunkings of rows and columns (all compositions, incl. 1-cell chunks '
         'that Dask merges up to the halo size), max_distance chosen relative to the cell sizes (k, k+1/2, just below/above, '
         'sqrt2, ..) so that targets sit just inside / outside the halo, max_distance >= the raster diagonal (single-chunk '
@@ -189,7 +189,9 @@ TRUSTED = c06.TRUSTED + [
 ]
 ASSUMPTIONS = ['the halo in cells does not exceed the raster height/width (documented Dask limitation); rasters have at '
                'least 2 rows and 2 columns unless a `res` attribute is given (calc_res divides by n-1); ascending or '
-               'descending uniform coordinates; max_distance >= 0']
+               'descending uniform coordinates; max_distance >= 0 or None; GREAT_CIRCLE on Dask only with max_distance beyond the '
+               'diagonal (the halo is max_distance in metres divided by the cell size in degrees: any useful finite value exceeds the '
+               'raster, the documented Dask limitation); float16 is rejected by Numba']
 PARTIAL = [
     'C07_chunked_eq_whole_full_statement (chunked = whole for the four-sweep HEURISTIC on every grid) is NOT claimed: the '
     'heuristic is not an exact nearest-target algorithm and nothing forces its error to be chunk independent; it is proved '
@@ -228,7 +230,7 @@ def effective_chunks(chunks, pad):
 def py_pads(case):
     """the implementation's pads in binary64, for choosing cases inside the domain"""
     md = case['max_distance']
-    if md == 'inf':
+    if md in ('inf', None):
         return 0, 0
     xs, ys = case['xs'], case['ys']
     if case.get('res') is not None:
@@ -246,15 +248,17 @@ def max_possible(case):
 
 
 def is_fallback(case):
+    if case.get('metric') == 'GREAT_CIRCLE':
+        return True                                  # only generated with max_distance beyond the diagonal
     md = case['max_distance']
-    md = INF if md == 'inf' else float(md)
+    md = INF if md in ('inf', None) else float(md)
     return md >= max_possible(case)[1]
 
 
 def model_line(case):
     metric = case['metric']
     md = case['max_distance']
-    mdf = INF if md == 'inf' else float(md)
+    mdf = INF if md in ('inf', None) else float(md)
     xs = [int(v) for v in case['xs']]
     ys = [int(v) for v in case['ys']]
     R, M, ties = c06.key_params(metric, xs, ys, mdf)
@@ -342,20 +346,26 @@ def gen_case(rng, i):
         md = math.sqrt(5.0) * cs
     else:
         md = rng.choice([0.5, 0.75, 1.0, 1.5, 2.0, 2.5, 3.0, 4.0, 6.0])
-    dtype = rng.choice(['float64', 'float64', 'float32', 'int32', 'int64'])
+    dtype = rng.choice(c06.DTYPES)
     data = [[float(v) for v in row] for row in g]
     tv = []
     mode = 'default'
-    if rng.random() < 0.25:
+    if rng.random() < 0.3:
         present = sorted({v for row in g for v in row if v != 0})
         if present:
             tv = [float(v) for v in rng.sample(present, min(len(present), rng.randint(1, 2)))]
+            tv = c06.vary_target_values(rng, tv)
             mode = 'target_values'
     if dtype.startswith('float'):
         for r in range(h):
             for c in range(w):
-                if rng.random() < 0.02:
+                u2 = rng.random()
+                if u2 < 0.02:
                     data[r][c] = float('nan')
+                elif u2 < 0.03:
+                    data[r][c] = float('inf')
+    if rng.random() < 0.04:
+        md = None
     style = rng.choice(['any', 'any', 'small', 'small', 'ones', 'single'])
     chunks = [compositions_random(rng, h, style), compositions_random(rng, w, rng.choice([style, 'any', 'small']))]
     case = dict(fn='dask', layout=layout, metric=metric, data=data, dtype=dtype, xs=xs, ys=ys, cdtype='float64',
@@ -363,7 +373,32 @@ def gen_case(rng, i):
                 scheduler=rng.choice(['threads', 'threads', 'synchronous']))
     if rng.random() < 0.2:
         case['res'] = [float(cx), float(cy)]
+    if tv:
+        case['tv_kind'] = rng.choice(['list', 'list', 'ints', 'tuple', 'ndarray'])
+    if rng.random() < 0.2:
+        case['dims'] = rng.choice([['lat', 'lon'], ['row', 'col'], ['x', 'y']])
+    if rng.random() < 0.2:
+        case['cdtype'] = 'int64'
     return case
+
+
+def gc_cases(ctx):
+    """GREAT_CIRCLE on Dask: max_distance is in metres while the halo is derived from the cell size in degrees, so only the
+    single-chunk fallback (inf / None / beyond the diagonal) is inside the stated domain; Dask vs NumPy only"""
+    rng = ctx.rng
+    out = []
+    for i in range(2):
+        c = c06.gen_gc_case(rng, rng.randrange(12))
+        c['fn'] = 'dask'
+        c['max_distance'] = ['inf', None, 5.0e7][rng.randrange(3)]
+        h, w = len(c['ys']), len(c['xs'])
+        c['chunks'] = [compositions_random(rng, h, 'small'), compositions_random(rng, w, 'any')]
+        c['scheduler'] = 'threads'
+        c['only'] = ONLY[i]
+        c['ykind'], c['xkind'] = 'gc', 'gc'
+        c['no_model'] = True
+        out.append(c)
+    return out
 
 
 def in_domain(case):
@@ -416,8 +451,9 @@ def check_cases(ctx, cases, pool, use_model=True):
         rn, rd = res[2 * i], res[2 * i + 1]
         ctx.case(case, nontrivial=nontrivial(case))
         fb = is_fallback(case)
-        ctx.count('%s/%s/%s/%s' % (case['metric'], 'fallback' if fb else ('inf' if case['max_distance'] == 'inf' else 'halo'),
+        ctx.count('%s/%s/%s/%s' % (case['metric'], 'fallback' if fb else ('inf' if case['max_distance'] in ('inf', None) else 'halo'),
                                    case['ykind'] + '-' + case['xkind'], case['scheduler']))
+        ctx.count('dtype/%s' % case['dtype'])
         ctx.count('blocks/%s' % ('1' if len(case['chunks'][0]) * len(case['chunks'][1]) == 1 else
                                  ('2-4' if len(case['chunks'][0]) * len(case['chunks'][1]) <= 4 else '5+')))
         if 'fatal' in rn or 'fatal' in rd:
@@ -439,9 +475,10 @@ def check_cases(ctx, cases, pool, use_model=True):
                 ctx.violation('oracle', 'Dask %s differs from NumPy at cell (%d,%d): numpy %r, dask %r '
                               '[chunks %r, max_distance %r, metric %s]' % (name, r, c, p, q, case['chunks'],
                                                                            case['max_distance'], case['metric']),
-                              dict(case, function=name, cell=[r, c], numpy=p, dask=q))
+                              dict(case, function=name, cell=[r, c], numpy=p, dask=q),
+                              key=KEY_INTCOORDS if intcoords_class(case) else None)
                 bad = True
-        if bad or not use_model:
+        if bad or not use_model or case.get('no_model'):
             continue
         try:
             line, pads = model_line(case)
@@ -512,6 +549,15 @@ def special_cases(ctx):
                         mode='target_values', max_distance=rng.choice([1.0, 1.5, 2.0, 3.0]),
                         chunks=[compositions_random(rng, h, 'any'), compositions_random(rng, w, 'small')],
                         scheduler='threads', only=ONLY[i % 3]))
+    # integer raster AND integer coordinates (np.arange, as in the docstrings): the NaN halo is not representable in either
+    h, w = rng.randint(4, 7), rng.randint(5, 8)
+    g = c06.gen_layout(rng, h, w, 'sparse')
+    out.append(dict(fn='dask', layout='integer-raster-integer-coords', metric=rng.choice(['EUCLIDEAN', 'MANHATTAN']),
+                    data=[[float(v) for v in row] for row in g], dtype=rng.choice(['int32', 'int64', 'uint64']),
+                    xs=list(range(w)), ys=list(range(h))[::-1] if rng.random() < 0.5 else list(range(h)), cdtype='int64',
+                    ykind='int', xkind='int', tv=[], mode='default', max_distance=rng.choice([1.0, 1.5, 2.0]),
+                    chunks=[compositions_random(rng, h, 'small'), compositions_random(rng, w, 'small')],
+                    scheduler='threads', only=ONLY[0]))
     for i in range(2):
         h, w = 12, 16
         g = c06.gen_layout(rng, h, w, 'multi')
@@ -630,6 +676,14 @@ def check_pairs(ctx, pairs, pool):
 
 
 KEY_SINGLE = 'dask-single-row-or-column-zero-division'
+KEY_INTCOORDS = 'dask-integer-raster-integer-coordinates-phantom-halo-targets'
+
+
+def intcoords_class(case):
+    """integer-typed raster with integer-typed coordinates and a real halo (finite max_distance below the diagonal)"""
+    if case.get('cdtype') != 'int64' or case.get('dtype', 'float64').startswith('float') or is_fallback(case):
+        return False
+    return max(py_pads(case)) > 0
 
 
 def edge_cases(ctx):
@@ -674,7 +728,7 @@ def check_edges(ctx, cases, pool):
 
 
 def run(ctx):
-    n = 20 if ctx.quick() else 300
+    n = 14 if ctx.quick() else 300
     cases = gen_cases(ctx, n)
     suspects = model_search(ctx, 1500 if ctx.quick() else 30000)
     for s in suspects[:6]:
@@ -684,7 +738,7 @@ def run(ctx):
         if suspects:
             ctx.notes.append('model search: %d chunk-dependent model results, replayed on the implementation' % len(suspects))
             check_cases(ctx, suspects[:6], pool)
-        check_cases(ctx, special_cases(ctx) + bigint_cases(ctx) + cases, pool)
+        check_cases(ctx, special_cases(ctx) + bigint_cases(ctx) + gc_cases(ctx) + cases, pool)
         check_pairs(ctx, pair_cases(ctx), pool)
         check_derived(ctx, derived_cases(ctx), pool)
         check_edges(ctx, edge_cases(ctx), pool)
